@@ -461,6 +461,8 @@ fn campaign(a: &Args, rng: &mut Rng, rep: &mut Report, sink: &mut Sink) {
             run_static(&cl, rng, rep, sink, Emit { obs_pm: 1000, all_t_pm: 0 });
             let tc = trap_clusters(rng, 30 * sc);
             run_turn_trees(&tc, 400, rng, rep, sink, Emit { obs_pm: 60, all_t_pm: 60 });
+            let ec = edge_clusters(rng);
+            run_turn_trees(&ec, 60, rng, rep, sink, Emit { obs_pm: 20, all_t_pm: 20 });
             run_motifs(rng, 1500 * sc, 6, rep, sink, Emit { obs_pm: 400, all_t_pm: 60 });
             run_positions(rng, 150 * sc, &[6, 12, 20, 30], &[Policy::PushPull, Policy::Uniform, Policy::FourSteps, Policy::Capture], 40, true, rep, sink, light);
         }
